@@ -470,4 +470,19 @@ theorem takenOf_importSym (pm : PModel) :
   simp only [takenOf, importSym, c, d, List.map_map]
   congr 1
 
+theorem eq_of_name_eq_of_nodup : ∀ (l : List SymFn), (l.map (·.fnName)).Nodup →
+    ∀ f ∈ l, ∀ g ∈ l, g.fnName = f.fnName → g = f := by
+  intro l
+  induction l with
+  | nil => intro _ f hf; cases hf
+  | cons a rest ih =>
+    intro hnd f hf g hg hname
+    simp only [List.map_cons, List.nodup_cons, List.mem_map, not_exists, not_and] at hnd
+    rcases List.mem_cons.mp hf with rfl | hf' <;> rcases List.mem_cons.mp hg with rfl | hg'
+    · rfl
+    · exact absurd hname (hnd.1 g hg')
+    · exact absurd hname.symm (hnd.1 f hf')
+    · exact ih hnd.2 f hf' g hg' hname
+
+
 end Mxl.C17
